@@ -1,9 +1,17 @@
 (* C09 handler: parse the case line (see harness/p/c09/c09.go), run the
    extracted model of model/Jwt.v, print the same canonical observation as the
    Go harness.  The Section variables of the model are closures built from the
-   case line (V/J: what the harness computed with the standard library and
-   structpb; E: a toy JSON printer / signer that satisfy the laws of the
-   round-trip theorem). *)
+   case line (V/J: signature validity as the harness computed it with the
+   standard library; E: a toy signer that satisfies the laws of the round-trip
+   theorem).
+
+   JSON TEXT: the model parses the header / payload bytes and the JWK set text
+   ITSELF (Json.json_parse_text).  What structpb.Struct.UnmarshalJSON said
+   about the same bytes (hp / pp of a V/J line, the second field of an I line)
+   is only a cross-check: on every case the model's own parse must have the
+   same verdict and the same canonical value, else the case is a mismatch.
+   The one oracle left is the float64 view of a number literal outside the
+   exact path (op json_num of the stdlib oracle: strconv.ParseFloat). *)
 let z_of_dec (s : string) : z =
   if s <> "" && s.[0] = '-' then
     (match n_of_dec (String.sub s 1 (String.length s - 1)) with N0 -> Z0 | Npos p -> Zneg p)
@@ -48,16 +56,51 @@ let parse_fields (s : string) : (n list * json) list =
   | (JObj f, []) -> f
   | _ -> failwith "json: object expected"
 
-let rec canon (sorted : bool) (j : json) : string list =
-  match j with
-  | JNull -> ["n"] | JBool true -> ["t"] | JBool false -> ["f"]
-  | JStr s -> ["s" ^ hexs s]
-  | JNum (t, r) -> ["d" ^ dec_of_z t ^ "x" ^ hexs r]
-  | JArr l -> ("a" ^ string_of_int (List.length l)) :: List.concat_map (canon sorted) l
-  | JObj f ->
-    let f = if sorted then List.stable_sort (fun (a, _) (b, _) -> compare (string_of_bytes a) (string_of_bytes b)) f else f in
-    ("o" ^ string_of_int (List.length f)) :: List.concat_map (fun (k, v) -> ("k" ^ hexs k) :: canon sorted v) f
+(* linear in the size of the value (an accumulator, not list concatenation:
+   values nested a few thousand levels deep occur in the text-layer stream) *)
+let canon (sorted : bool) (j : json) : string list =
+  let acc = ref [] in
+  let emit t = acc := t :: !acc in
+  let rec go j =
+    match j with
+    | JNull -> emit "n" | JBool true -> emit "t" | JBool false -> emit "f"
+    | JStr s -> emit ("s" ^ hexs s)
+    | JNum (t, r) -> emit ("d" ^ dec_of_z t ^ "x" ^ hexs r)
+    | JArr l -> emit ("a" ^ string_of_int (List.length l)); List.iter go l
+    | JObj f ->
+      let f = if sorted then List.stable_sort (fun (a, _) (b, _) -> compare (string_of_bytes a) (string_of_bytes b)) f else f in
+      emit ("o" ^ string_of_int (List.length f));
+      List.iter (fun (k, v) -> emit ("k" ^ hexs k); go v) f in
+  go j; List.rev !acc
 let canon_fields sorted f = String.concat "," (canon sorted (JObj f))
+
+(* ---- the JSON text layer ---- *)
+let text_of_lit (l : numlit) : n list =
+  (if l.nl_neg then [n_of_int 45] else []) @ l.nl_int
+  @ (if l.nl_frac = [] then [] else n_of_int 46 :: l.nl_frac)
+  @ (match l.nl_exp with
+      | None -> []
+      | Some (neg, ds) -> n_of_int 101 :: (if neg then [n_of_int 45] else []) @ ds)
+let num_calls = Hashtbl.create 16
+let num_of_literal (l : numlit) : (z * n list) option =
+  let key = hexs (text_of_lit l) in
+  match Hashtbl.find_opt num_calls key with
+  | Some r -> r
+  | None ->
+    let r = oracle ("json_num " ^ key) in
+    let v = if r = "ERR" then None else
+        let i = String.index r 'x' in
+        Some (z_of_dec (String.sub r 0 i), unhex (String.sub r (i + 1) (String.length r - i - 1))) in
+    Hashtbl.replace num_calls key v; v
+let parse_text (b : n list) : (n list * json) list option = json_parse_text num_of_literal b
+let show_parse = function None -> "!" | Some f -> canon_fields true f
+(* the correspondence of the text layer: the model's parse of b against what
+   structpb.Struct.UnmarshalJSON said (canonical text, "!" = error) *)
+let cross_check (what : string) (b : n list) (harness : string) : (n list * json) list option =
+  let own = parse_text b in
+  if show_parse own <> harness then
+    failwith ("text layer: the model parses the " ^ what ^ " as " ^ show_parse own ^ " but structpb.Struct.UnmarshalJSON gave " ^ harness);
+  own
 
 (* ---- case-line pieces ---- *)
 let parse_key (i : int) (s : string) : jkey =
@@ -107,11 +150,10 @@ let last_dot_prefix (tok : n list) : n list =
   let s = string_of_bytes tok in
   match String.rindex_opt s '.' with None -> [] | Some i -> bytes_of_string (String.sub s 0 i)
 
-let table (s : string) : (n list * (n list * json) list option) option =
+let table (s : string) : (n list * string) option =
   if s = "~" then None else
     let i = String.index s '=' in
-    let b = unhex (String.sub s 0 i) and p = String.sub s (i + 1) (String.length s - i - 1) in
-    Some (b, if p = "!" then None else Some (parse_fields p))
+    Some (unhex (String.sub s 0 i), String.sub s (i + 1) (String.length s - i - 1))
 
 let handle_verify kind keys o tok sv hp pp =
   let keys = parse_keys keys and o = parse_vopts o and tok = unhex tok in
@@ -123,27 +165,31 @@ let handle_verify kind keys o tok sv hp pp =
         if sg <> unhex sh || u <> unsigned then failwith "sig_valid asked on a different (signature, text) pair than the harness computed"
         else bits.[int_of_n kref] = '1'
       | _ -> failwith "sv" in
-  let ht = table hp and pt = table pp in
+  (* every decodable header / payload is parsed by the model and compared with
+     structpb's verdict, whether or not verification gets that far *)
+  let parsed = List.filter_map (fun (what, t) ->
+      match table t with
+      | Some (b, harness) -> Some (b, cross_check what b harness)
+      | None -> None) [("header", hp); ("payload", pp)] in
   let json_parse b =
-    match ht, pt with
-    | Some (hb, r), _ when hb = b -> r
-    | _, Some (pb, r) when pb = b -> r
-    | _ -> failwith "json_parse asked on bytes the harness did not decode" in
+    match List.assoc_opt b parsed with
+    | Some r -> r
+    | None -> parse_text b in
   let keys = if kind = "J" then jwk_roundtrip keys else keys in
   let jwk_shape = String.concat "," (List.map (fun k ->
       string_of_bytes k.kalg ^ "." ^ (match k.kkid with KCustom c -> hexs c | _ -> "~")) keys) in
   (if kind = "J" then "priv=refused jwk=" ^ jwk_shape ^ " " else "") ^ show_result (verify sig_valid json_parse keys o tok)
 
-(* toy oracles for the encode round trip *)
+(* the encode round trip: the model prints with Json.json_print_text and parses
+   its own text back; the signer is a toy *)
 let handle_encode key ropts o =
   let k = { (parse_key 0 key) with kenabled = true } in
   let o = parse_vopts o in
   match new_raw_jwt (parse_rawopts ropts) with
   | None -> "rawerr"
   | Some r ->
-    let printed : (string, (n list * json) list) Hashtbl.t = Hashtbl.create 4 in
-    let json_print f = let s = canon_fields false f in Hashtbl.replace printed s f; bytes_of_string s in
-    let json_parse b = Hashtbl.find_opt printed (string_of_bytes b) in
+    let json_print f = json_print_text f in
+    let json_parse b = parse_text b in
     let sign kref m = bytes_of_string ("SIG" ^ dec_of_n kref ^ ":") @ m in
     let sig_valid kref sg m = (sg = sign kref m) in
     (match encode json_print sign k r, encode_parts k r with
@@ -170,10 +216,12 @@ let show_pub (k : pubkey) : string =
   | PubES (_, pt, kid) -> string_of_bytes (alg_name k) ^ "." ^ show_kid kid ^ "." ^ hexs pt
   | PubRSA (_, _, n, e, kid) -> string_of_bytes (alg_name k) ^ "." ^ show_kid kid ^ "." ^ hexs n ^ ":" ^ dec_of_n e
 
-(* the handle: ids 1..n stand for the random ids; print key, status, primary *)
-let show_handle (oc : hsz -> n list -> bool) (j : json) (pks : pubkey list) : string =
+(* the handle: ids 1..n stand for the random ids; print key, status, primary.
+   The import starts from the JWK set TEXT (Json.jwk_import_text /
+   jwk_import_handle_text: the model parses it itself). *)
+let show_handle (oc : hsz -> n list -> bool) (text : n list) (pks : pubkey list) : string =
   let ids = List.mapi (fun i _ -> n_of_int (i + 1)) pks in
-  match jwk_import_handle oc ids j with
+  match jwk_import_handle_text num_of_literal oc ids text with
   | None -> failwith "import_handle disagrees with import"
   | Some (ks, prim) ->
     String.concat "," (List.map (fun en ->
@@ -181,10 +229,10 @@ let show_handle (oc : hsz -> n list -> bool) (j : json) (pks : pubkey list) : st
         ^ "." ^ (match en.e_status with Enabled -> "E" | Disabled -> "D" | Destroyed -> "X")
         ^ (if en.e_id = prim then "1" else "0")) ks)
 
-let show_import (oc : hsz -> n list -> bool) (j : json) : string =
-  match jwk_import oc j with
+let show_import (oc : hsz -> n list -> bool) (text : n list) : string =
+  match jwk_import_text num_of_literal oc text with
   | None -> "rej"
-  | Some pks -> "ok " ^ show_handle oc j pks
+  | Some pks -> "ok " ^ show_handle oc text pks
 
 let parse_xkey (s : string) : entry =
   match String.split_on_char '.' s with
@@ -216,26 +264,27 @@ let handle_export (keys : string) : string =
   let oc a pt = List.mem (a, pt) pts in
   match jwk_export ks with
   | None -> "refused"
-  | Some j -> "jwk=" ^ String.concat "," (canon true j) ^ " imp=" ^ show_import oc j
+  | Some (JObj f as j) ->
+    (* the exported value is printed by the model's printer and imported from that text *)
+    "jwk=" ^ String.concat "," (canon true j) ^ " imp=" ^ show_import oc (json_print_text f)
+  | Some _ -> failwith "the exported JWK set is not an object"
 
-let handle_import (parsed : string) (table : string) : string =
-  if parsed = "!" then "rej" else
-    let j = (match parse_value (String.split_on_char ',' parsed) with
-        | (v, []) -> v
-        | _ -> failwith "json: trailing tokens") in
-    let tab = if table = "~" then [] else
-        List.map (fun e -> match String.split_on_char ':' e with
-            | [a; pt; b] -> ((hsz_of a, unhex pt), b = "1")
-            | _ -> failwith "on-curve table") (String.split_on_char ',' table) in
-    let oc a pt = match List.assoc_opt (a, pt) tab with
-      | Some b -> b
-      | None -> failwith ("on_curve asked on a point the harness did not judge: " ^ hsz_name a ^ ":" ^ hexs pt) in
-    show_import oc j
+let handle_import (text : string) (parsed : string) (table : string) : string =
+  let text = unhex text in
+  ignore (cross_check "JWK set" text parsed);
+  let tab = if table = "~" then [] else
+      List.map (fun e -> match String.split_on_char ':' e with
+          | [a; pt; b] -> ((hsz_of a, unhex pt), b = "1")
+          | _ -> failwith "on-curve table") (String.split_on_char ',' table) in
+  let oc a pt = match List.assoc_opt (a, pt) tab with
+    | Some b -> b
+    | None -> failwith ("on_curve asked on a point the harness did not judge: " ^ hsz_name a ^ ":" ^ hexs pt) in
+  show_import oc text
 
 let handle (line : string) : string =
   match String.split_on_char '|' line with
   | [_; ("V" | "J" as kind); _; keys; o; tok; sv; hp; pp; _] -> handle_verify kind keys o tok sv hp pp
   | [_; "E"; _; key; ropts; o; _] -> handle_encode key ropts o
   | [_; "X"; keys; _] -> handle_export keys
-  | [_; "I"; _; parsed; table; _] -> handle_import parsed table
+  | [_; "I"; text; parsed; table; _] -> handle_import text parsed table
   | _ -> failwith "case"
